@@ -4,6 +4,7 @@ CONSTANTS
   EnvVars <- NoEnv
   QueryKinds <- NoEnv
   BlockChoices <- NoBlocks
+  Versions <- GateVersions
   Sel = "diag"
 INIT GInit
 NEXT GNextC
